@@ -1,8 +1,80 @@
 //! arena-mc: explicit-state exploration of the real `Bump`/`BumpScope` (DESIGN.md §1, §3); see cli.rs.
 mod cli;
 mod configs;
+mod conv;
 mod props;
 
+use vcore::json::J;
+
+fn arg(args: &[String], name: &str) -> Option<String> {
+    args.iter().position(|a| a == name).and_then(|i| args.get(i + 1).cloned())
+}
+
+/// C18 also owns the settings-conversion product (conv.rs): a closed, complete enumeration that is run before the
+/// history exploration
+fn conv_space(tier: &str) {
+    let t0 = std::time::Instant::now();
+    let outs = conv::run_all();
+    let total = outs.len();
+    let nontrivial = outs.iter().filter(|o| o.nontrivial).count();
+    let mut viol = 0;
+    for o in &outs {
+        if let Some(m) = &o.msg {
+            viol += 1;
+            let vj = J::obj()
+                .set("prop", "C18")
+                .set("cfg", "conv")
+                .set("params", "")
+                .set("history", o.id.as_str())
+                .set("step", 0usize)
+                .set("msg", format!("settings conversion {}: {m}", o.id))
+                .set("replay_args", vec!["--conv".to_string(), o.id.clone()]);
+            println!("VIOL {}", vj.to_string());
+        }
+    }
+    let mut cov = J::obj();
+    cov.put("states", total);
+    cov.put("transitions", total);
+    cov.put("traces_validated_against_impl", total);
+    cov.put("evaluations", total);
+    cov.put("distinct_nontrivial", nontrivial);
+    cov.put("rule", "conversion raises the minimum alignment, or the source is unallocated / claimed");
+    cov.put("samples", outs.iter().filter(|o| o.nontrivial).take(6).map(|o| o.id.clone()).collect::<Vec<_>>());
+    cov.put("exhaustive", true);
+    let j = J::obj()
+        .set("property_id", "C18")
+        .set("space", "settings-conversions")
+        .set("tier", tier)
+        .set("seed", 0u64)
+        .set("level", "model_checking")
+        .set("coverage", cov)
+        .set("wall_s", t0.elapsed().as_secs_f64())
+        .set("violations", viol)
+        .set("floor", 100usize)
+        .set("floor_ok", nontrivial >= 100 || viol > 0);
+    println!("SPACE {}", j.to_string());
+}
+
 fn main() {
+    let args: Vec<String> = std::env::args().collect();
+    let cmd = args.get(1).map(String::as_str).unwrap_or("");
+    let prop = arg(&args, "--prop").unwrap_or_default();
+    if prop == "C18" && cmd == "check" {
+        vcore::crash::install();
+        conv_space(&arg(&args, "--tier").unwrap_or_else(|| "quick".into()));
+    }
+    if prop == "C18" && cmd == "replay" {
+        if let Some(id) = arg(&args, "--conv") {
+            vcore::crash::install();
+            match conv::run_all().into_iter().find(|o| o.id == id) {
+                Some(o) => match o.msg {
+                    Some(m) => println!("REPLAY VIOLATION step=0 msg=settings conversion {}: {m}", o.id),
+                    None => println!("REPLAY OK"),
+                },
+                None => println!("REPLAY DISABLED at=0"),
+            }
+            return;
+        }
+    }
     cli::run()
 }
